@@ -118,7 +118,21 @@ func c02(c *Ctx) {
 	}
 	// every patch-based Cancel reaches a restore under the patch lock
 	rr := restoreReachers(p)
-	if pg := p.NamedType("", "patchMockGuard"); pg != nil {
+	// the guard adapter: the root-package type that wraps a *patch.Guard
+	var pgs []*types.Named
+	for _, n := range namedTypesOf(p.Pkg("").Types) {
+		if st, ok := n.Underlying().(*types.Struct); ok && gt != nil {
+			for i := 0; i < st.NumFields(); i++ {
+				if pt, ok := st.Field(i).Type().(*types.Pointer); ok && types.Identical(pt.Elem(), gt) {
+					pgs = append(pgs, n)
+				}
+			}
+		}
+	}
+	if len(pgs) == 0 {
+		r.Und("C02.R5", "patch guard adapter", "", "no type of the root package wraps *patch.Guard")
+	}
+	for _, pg := range pgs {
 		cf := methodOf(p, pg, "Cancel")
 		r.Check(cf != nil && rr[cf], "C02.R5", "patch guard Cancel reaches restore", p.Pos(pg.Obj().Pos()), "Cancel → restore write", "cancelling a patch-based mock no longer reaches the write-back of the original bytes")
 	}
